@@ -20,7 +20,7 @@ def memory_model(ctx, want, progs=None, avoid=()):
         core.sample(ctx, p, lo, up, r)
     if "trace" in want:
         core.validate_traces(ctx, progs, res)
-    oracle_selfcheck(ctx, progs, lower, upper, limit=(6 if ctx.tier == "quick" else 120))
+    oracle_selfcheck(ctx, progs, lower, upper, limit=(80 if ctx.tier == "quick" else 600))
     ctx.cov["programs"] += len(progs)
     ctx.cov["evaluations"] += len(progs)
     ctx.cov["distinct_nontrivial"] += nontriv
@@ -50,7 +50,27 @@ def oracle_selfcheck(ctx, progs, lower, upper, limit=60):
     import random
     idx = [i for i, p in enumerate(progs) if ax_eligible(p)]
     random.Random(ctx.seed).shuffle(idx)       # a different sample of the eligible programs per seed
-    idx = sorted(idx[:limit])
+    # candidate executions per program = prod(writes per location)! * prod(candidate stores per load): bound the total
+    import math
+
+    def cost(p):
+        w, c = {}, 1
+        for th in p["threads"][1:]:
+            for i in th:
+                if i["op"] in ("st", "rmw"): w[i["o"]] = w.get(i["o"], 0) + 1
+        for n in w.values(): c *= math.factorial(n)
+        for th in p["threads"]:
+            for i in th:
+                if i["op"] == "ld": c *= w.get(i["o"], 0) + 1
+        return c
+    budget = 30000 if ctx.tier == "quick" else 600000
+    chosen = []
+    for i in idx:
+        if len(chosen) >= limit: break
+        if cost(progs[i]) <= budget:
+            budget -= cost(progs[i])
+            chosen.append(i)
+    idx = sorted(chosen)
     if not idx:
         return
     sub = [progs[i] for i in idx]
